@@ -148,6 +148,12 @@ func c08Eval(w *mc.W, cas c08Case) {
 				b.Tx(1 << 30)
 				b.TxHash(-1)
 				b.Bytes()
+				// the parsed block scanned against a peer's filter and turned into proofs
+				f := bloom.LoadFilter(wire.NewMsgFilterLoad([]byte{0xff}, 1, 0, wire.BloomUpdateAll))
+				bloom.GetMatchedIndices(b, f)
+				bloom.NewMerkleBlock(b, f)
+				merkleblock.NewMerkleBlockWithFilter(b, f)
+				merkleblock.NewMerkleBlockWithTxnSet(b, nil)
 			}
 		})
 	case "bloom":
